@@ -27,3 +27,7 @@ reg("C17", "property-based testing (stateful): Hypothesis rule-based machine ove
     "Histories of {attach stage, activate, call, deactivate normally/by exception/explicitly, re-activation attempt, background probe on/off} are applied to one root probe and to a stream model; after every step every non-reducing sink must equal the mapped list of events since its attachment, reducing sinks must be empty until deactivation and hold exactly the reduction of their events afterwards, a refused re-activation must change nothing, and nothing may stay installed once inactive.",
     "Trusts giving's operator semantics for map/filter/count/sum/min/max/last/take_last as re-stated in ref_stage; empty strict reducers are excluded by the model (giving raises by contract).",
     "DESIGN.md section 5 C17")
+reg("C09", "property-based testing (model-based histories): Hypothesis-generated operation sequences over overlays/generators/driver calls, leak-free context model with per-node event attribution",
+    "Generated histories of {enter/leave overlay, create generator, next, close, drop, driver call}, run at top level and inside an instrumented driver function, are applied to ptera (BaseOverlay+Immediate on tooled copies, own sinks) and to a model in which the driver's context is exactly the open overlays; events caused by the driver's own calls must match for every overlay (open or ended), generator-body events must match for overlays spanning the generator, and at top level the installed handler pairs must be exactly the open overlays' after every step.",
+    "Generator-body events for overlays that do not span the generator's life are don't-care; yield-from and throw() are not in the property's operation set and are not generated.",
+    "DESIGN.md section 5 C09")
